@@ -64,6 +64,13 @@ fn store_of(scn: &Scenario) -> &StoreScn {
     }
 }
 
+fn net_of(scn: &Scenario) -> &crate::netscn::NetScn {
+    match &scn.body {
+        Body::Net(n) => n,
+        _ => panic!("net scenario expected"),
+    }
+}
+
 fn merge_out(into: &mut RunOut, from: RunOut) {
     into.evaluations += from.evaluations;
     into.nontrivial |= from.nontrivial;
@@ -169,6 +176,17 @@ pub fn run_scenario(scn: &Scenario) -> RunOut {
             }
             other => panic!("no engine for {}", other),
         },
-        Body::Net(_) => panic!("net engine not built yet"),
+        Body::Net(_) => {
+            let seed = scn.seed;
+            match scn.check.as_str() {
+                "C06" => run_sim(scn, move |ctx, scn| crate::net::run_c06(ctx, net_of(scn), seed)),
+                "C11" => run_sim(scn, move |ctx, scn| crate::net::run_c11(ctx, net_of(scn), seed)),
+                "C08" => run_sim(scn, move |ctx, scn| crate::net::run_c08(ctx, net_of(scn), seed)),
+                "C10" => run_sim(scn, move |ctx, scn| crate::net::run_c10(ctx, net_of(scn), seed)),
+                "C15" => run_sim(scn, move |ctx, scn| crate::net::run_c15(ctx, net_of(scn), seed)),
+                "C16" => run_sim(scn, move |ctx, scn| crate::net::run_c16(ctx, net_of(scn), seed)),
+                other => panic!("no net engine for {}", other),
+            }
+        }
     }
 }
